@@ -160,6 +160,14 @@ func (w *Workspace) loadTheory() error {
 			}
 		}
 	}
+	// functions of the base prelude
+	for _, sig := range []*SpecSig{
+		{Name: "str_lt", Args: []string{"Str", "Str"}, Res: "Bool"}, {Name: "str_le", Args: []string{"Str", "Str"}, Res: "Bool"},
+		{Name: "str_len", Args: []string{"Str"}, Res: "Int"}, {Name: "str_cat", Args: []string{"Str", "Str"}, Res: "Str"},
+		{Name: "tquo", Args: []string{"Int", "Int"}, Res: "Int"}, {Name: "trem", Args: []string{"Int", "Int"}, Res: "Int"},
+	} {
+		w.specFuncs[sig.Name] = sig
+	}
 	// world components
 	b, err := os.ReadFile(filepath.Join(dir, "world.decl"))
 	if err == nil {
@@ -197,6 +205,7 @@ func (g *Gen) useTheory(name string) {
 
 var sortNameRe = regexp.MustCompile(`\bT_[A-Za-z0-9_]+`)
 var opaqueNameRe = regexp.MustCompile(`\bO_[A-Za-z0-9_]+`)
+var sliceNameRe = regexp.MustCompile(`\bSlice_(Str|Int|Bool)\b`)
 var coinsNameRe = regexp.MustCompile(`\bCoins\b`)
 var strMacroRe = regexp.MustCompile(`\{str "([^"]*)"\}`)
 
@@ -207,6 +216,16 @@ func (g *Gen) ensureSortNames(text string) {
 	}
 	if coinsNameRe.MatchString(text) {
 		g.sorts.opaque["Coins"] = true
+	}
+	for _, m := range sliceNameRe.FindAllStringSubmatch(text, -1) {
+		switch m[1] {
+		case "Str":
+			g.sorts.heapFor(g.sorts.sortOf(types.NewSlice(types.Typ[types.String])))
+		case "Int":
+			g.sorts.heapFor(g.sorts.sortOf(types.NewSlice(types.Typ[types.Int64])))
+		case "Bool":
+			g.sorts.heapFor(g.sorts.sortOf(types.NewSlice(types.Typ[types.Bool])))
+		}
 	}
 	defer func() {
 		// option sorts are declared after the sorts they wrap
